@@ -64,11 +64,7 @@ pub fn zinc_observation(v: &V) -> String {
 
 pub fn zinc_roundtrip(v: &V) -> Verdict {
     let lv = to_lib(v);
-    let text = match guarded(|| to_zinc_string(&lv)) {
-        Err(p) => return Err(("encode-panic".into(), p)),
-        Ok(Err(e)) => return Err(("encode-error".into(), e.to_string())),
-        Ok(Ok(t)) => t,
-    };
+    let text = zinc_text_all_writers(&lv)?;
     match guarded(|| typed_text(&lv)) {
         Err(p) => return Err(("typed-encode-panic".into(), p)),
         Ok(Some(Err(e))) => return Err(("typed-encode-error".into(), e)),
